@@ -306,6 +306,7 @@ def run_synth(c, synth, sopts, name="render.cm (synthetic trees)"):
             if agree is None:
                 stats["skipped"] += 1
                 continue
+            c.cm_formatted.append((t, o, prof, pan))
             c.count(("synth.cm:" + prof + ":" + o + ":" + t).encode(), True)
             stats["cases"] += 1
             stats["impl_panics"] += 1 if pan else 0
@@ -324,6 +325,7 @@ def tie_cm(c, n_docs, n_synth, malformed=0.1, opts_fn=None):
     if not c.phase_builds(("debug", "release")):
         return None
     rng = c.rng
+    c.cm_formatted = []   # (tree, opts, profile, implementation panicked)
     cases = e2e.gen_cases(rng, n_docs, malformed=malformed, opts_fn=opts_fn or gen_cm_opts)
     recs = e2e.run_pipe(cases, profile="debug")
     idx = [i for i, r in enumerate(recs) if r.status == "ok"]
@@ -355,6 +357,7 @@ def tie_cm(c, n_docs, n_synth, malformed=0.1, opts_fn=None):
                 continue
             c.count(key + prof.encode(), bool(r.tree and r.tree.count("(") > 3))
             st["cases"] += 1
+            c.cm_formatted.append((r.tree, o, prof, pan))
             if pan:
                 st["impl_panics"] += 1
                 parser_panics.append((r.doc, o, prof, detail))
@@ -371,6 +374,8 @@ def tie_cm(c, n_docs, n_synth, malformed=0.1, opts_fn=None):
     sopts = [opts_for_tree(rng) for _ in synth]
     smism, _, _ = run_synth(c, synth, sopts)
     c.cm_synth_mismatches = smism
+    shape_checks(c)
+    witness_replay(c)
     if recs:
         c.cov["samples"].append({"op": "pipe", "doc": recs[0].doc[:200], "opts": docgen.opts_token(recs[0].opts),
                                  "cm": (recs[0].stage("cm") or b"")[:200].decode("utf-8", "replace")})
@@ -385,6 +390,67 @@ def tie_cm(c, n_docs, n_synth, malformed=0.1, opts_fn=None):
         widths[b] = widths.get(b, 0) + 1
     c.cov["input_distribution"] = {"documents": len(recs), "construct_counts": dist, "width_hist": widths, "synthetic_trees": len(synth)}
     return recs
+
+
+def shape_checks(c):
+    """the extracted shape predicates of Spec/CmSpec.v on every tree the compiled formatter was run on:
+    K1-K3 => the release build does not panic (theorem cm_total_partial, through the tie);
+    K1-K4 => the debug build does not panic (cm_total_debug_full_statement: NOT proved, tested here)"""
+    trees = sorted({t for t, _, _, _ in c.cm_formatted})
+    out = vlib.run_lines(vlib.DRIVER, ["cm_shape " + t for t in trees], timeout=900)
+    sh = {}
+    for t, l in zip(trees, out):
+        p = l.split()
+        sh[t] = (p[1] == "1", p[2] == "1") if len(p) == 3 and p[0] == "ok" else None
+    st = {"trees": len(trees), "K1-K3 hold": sum(1 for v in sh.values() if v and v[0]), "runs": 0,
+          "release runs under K1-K3": 0, "debug runs under K1-K4": 0, "panics outside the clauses": 0, "panics inside the clauses": 0}
+    for t, o, prof, pan in c.cm_formatted:
+        v = sh.get(t)
+        if v is None:
+            continue
+        st["runs"] += 1
+        inside = v[0] and (prof == "release" or v[1])
+        if inside:
+            st["release runs under K1-K3" if prof == "release" else "debug runs under K1-K4"] += 1
+        if pan and inside:
+            st["panics inside the clauses"] += 1
+            name = "cm_total_partial (release)" if prof == "release" else "cm_total_debug_full_statement (unproved)"
+            c.problem("spec", "spec:" + name, f"the compiled formatter ({prof}) panics on a tree satisfying the shape clauses",
+                      {"opts": o, "tree": t, "profile": prof, "line": f"cm_nv {o} {t}"})
+        elif pan:
+            st["panics outside the clauses"] += 1
+    c.cov["spec_checks"]["cm_shape (K1-K4) vs panics of the compiled formatter"] = st
+
+
+WITNESSES = [
+    # (theorem, name, tree, K1-K3, K4, release panics, debug panics)
+    ("cm_total_refuted_without_K1", "w_item_under_document", lambda: _n("Document", "", [_n("Item", "b 0 2 1 p 45 1 0", [_para(_text("x"))])]), False, True, True, True),
+    ("cm_total_refuted_without_K1", "w_item_root", lambda: _n("Item", "b 0 2 1 p 45 1 0", [_para(_text("x"))]), False, True, True, True),
+    ("cm_total_refuted_without_K2", "w_empty_code", lambda: _n("Document", "", [_para(_n("Code", "1 -"))]), False, True, True, True),
+    ("cm_total_refuted_without_K3", "w_cell_under_paragraph", lambda: _n("Document", "", [_para(_n("TableCell"))]), False, True, True, True),
+    ("cm_total_refuted_without_K3", "w_header_cell_no_table", lambda: _n("Document", "", [_n("TableRow", "1", [_n("TableCell")])]), False, True, True, True),
+    ("cm_total_debug_refuted_without_K4", "w_ol_overflow",
+     lambda: _n("Document", "", [_n("List", "o 0 2 18446744073709551615 p 45 1 0", [_n("Item", "o 0 2 1 p 45 1 0", [_para(_text("x"))])])]), True, False, False, True),
+]
+
+
+def witness_replay(c):
+    """the witness trees of the _refuted theorems on the compiled formatter (both profiles)"""
+    rows = []
+    for thm, name, mk, k123, k4, rel_pan, dbg_pan in WITNESSES:
+        t = mk()
+        sh = vlib.run_one(vlib.DRIVER, "cm_shape " + t)
+        rel = vlib.run_one(vlib.VH["release"], "cm_nv - " + t)
+        dbg = vlib.run_one(vlib.VH["debug"], "cm_nv - " + t)
+        ok = (sh == "ok %d %d" % (k123, k4)) and (rel.startswith("panic") == rel_pan) and (dbg.startswith("panic") == dbg_pan) \
+            and (rel_pan or rel.startswith("ok")) and (dbg_pan or dbg.startswith("ok"))
+        c.count(("witness:" + name).encode(), True)
+        rows.append({"theorem": thm, "witness": name, "shape": sh, "release": classify(rel)[1][:80] if rel.startswith("panic") else rel[:40],
+                     "debug": classify(dbg)[1][:80] if dbg.startswith("panic") else dbg[:40], "as_stated": ok})
+        if not ok:
+            c.problem("spec", "witness:" + name, f"witness of {thm} does not behave as the theorem states: shape={sh} release={rel[:60]} debug={dbg[:60]}",
+                      {"tree": t, "line": "cm_nv - " + t})
+    c.cov["spec_checks"]["witnesses of the refuted totality statements"] = rows
 
 
 def leaf_ties(c, n):
@@ -415,6 +481,28 @@ def leaf_ties(c, n):
         else:
             c.problem("correspondence", "leaf.cm_sequences", f"{lr}: impl={a} model={m}", {"line": lr})
     c.cov["correspondences"]["leaf.shortest_unused_sequence/longest_char_sequence"] = {"cases": len(lines_r), "agree": agree}
+    # the extracted run census (has_run, proved equivalent to is_run) on the implementation's own answers
+    q, meta = [], []
+    for lr, a in zip(lines_r, real):
+        if not a.startswith("ok "):
+            continue
+        op, lit, f = lr.split()
+        k = int(a[3:])
+        if op == "shortest_unused_sequence":
+            for j in range(1, min(k, 40) + 1):
+                q.append(f"cm_has_run {lit} {f} {j}")
+                meta.append((lr, a, j < k))
+        else:
+            for j in ([k] if k > 0 else []) + [k + 1, k + 2]:
+                q.append(f"cm_has_run {lit} {f} {j}")
+                meta.append((lr, a, j == k))
+    res = vlib.run_lines(vlib.DRIVER, q)
+    bad = 0
+    for (lr, a, want), r in zip(meta, res):
+        if r != ("ok 1" if want else "ok 0"):
+            bad += 1
+            c.violation("shortest_unused_sequence / longest_char_sequence answer contradicts the run census of the literal", {"line": lr, "impl": a})
+    c.cov["spec_checks"]["has_run on the implementation's answers"] = {"evaluations": len(q), "contradictions": bad}
 
 
 TRUSTED = ["Coq 8.16.1 kernel", "no axioms (Print Assumptions: closed for every pinned theorem)",
